@@ -283,6 +283,34 @@ func (c *EvalCtx) evalCall(x *SCall) (TV, error) {
 			return TV{Val: SExt(n, v.Val), Ty: t}, nil
 		}
 		return TV{Val: ZExt(n, v.Val), Ty: t}, nil
+	case "heap8":
+		_, h := c.e.scalarHeap(c.st, BVSort(8))
+		return TV{Val: h}, nil
+	case "unchanged":
+		// the elements of a slice hold the same values as in the pre-state (all leaf heaps)
+		v, err := c.eval(x.Args[0])
+		if err != nil {
+			return TV{}, err
+		}
+		if v.S != SSlice || c.old == nil || v.Ty == nil {
+			return TV{}, fmt.Errorf("unchanged() needs a slice and a pre-state")
+		}
+		elem := v.Ty.Underlying().(*types.Slice).Elem()
+		var parts []Val
+		for _, lf := range c.W().Leaves(elem) {
+			if _, isArr := lf.Type.Underlying().(*types.Array); isArr {
+				continue
+			}
+			_, hn := c.e.scalarHeap(c.st, lf.Sort)
+			_, ho := c.e.scalarHeap(c.old, lf.Sort)
+			if hn.T == ho.T {
+				continue
+			}
+			l := Val{fmt.Sprintf("uc!%d", c.depth), SLoc}
+			in := c.e.inRange(l, SBase(v.Val), SLen(v.Val), lf.Path)
+			parts = append(parts, quant("forall", []Val{l}, Implies(in, Eq(Select(hn, l), Select(ho, l))), []string{Select(hn, l).T}))
+		}
+		return TV{Val: And(parts...), Ty: boolT}, nil
 	case "toint":
 		// bit-vector (unsigned) to mathematical integer
 		v, err := c.eval(x.Args[0])
@@ -506,6 +534,16 @@ func (c *EvalCtx) evalModTarget(x SExpr) (modTarget, error) {
 					return modTarget{}, fmt.Errorf("elems() needs a slice")
 				}
 				return modTarget{kind: "elems", slice: s.Val, typ: s.Ty.Underlying().(*types.Slice).Elem()}, nil
+			}
+			if id.Name == "mapc" {
+				m, err := c.eval(t.Args[0])
+				if err != nil {
+					return modTarget{}, err
+				}
+				if m.Ty == nil || !isMap(m.Ty) {
+					return modTarget{}, fmt.Errorf("mapc() needs a map")
+				}
+				return modTarget{kind: "map", loc: m.Val, typ: m.Ty}, nil
 			}
 			if id.Name == "object" {
 				p, err := c.eval(t.Args[0])
